@@ -137,11 +137,15 @@ type side struct {
 	onlyID   string
 	revID    string
 	schema   string
+	session  string // channel session the client holds on channel docKey
 	canaries []string
 }
 
 // c13Memberships counts fixtures in which the attacker really holds an admin membership elsewhere.
 var c13Memberships atomic.Int64
+
+// c13Sessions counts fixture sides whose client really holds a channel session.
+var c13Sessions atomic.Int64
 
 type fixture struct {
 	env      *boot.Env
@@ -218,6 +222,13 @@ func (w *c13Worker) buildFixture(ei int) (*fixture, error) {
 		if err == nil && res.Msg.Revision != nil {
 			s.revID = res.Msg.Revision.Id
 		}
+		// a channel session of the shared client (channel key = the shared document key)
+		if cres, err := env.RPC(p.PublicKey).AttachChannel(ctx, hdr(connectReq(&api.AttachChannelRequest{
+			ClientId: r.ID.String(), ChannelKey: shared,
+		}), p.PublicKey, shared)); err == nil {
+			s.session = cres.Msg.SessionId
+			c13Sessions.Add(1)
+		}
 		// schema
 		s.schema = fmt.Sprintf("schema-%s-%d", tag, n)
 		_ = adm.CreateSchema(ctx, p.Name, s.schema, 1, "type Document = { secret: string; };", []types.Rule{{Path: "$.secret", Type: "string"}})
@@ -286,6 +297,7 @@ type idset struct {
 	onlyKey, onlyID     string
 	projectID, projName string
 	revID, schema       string
+	session             string
 	pack                *api.ChangePack
 }
 
@@ -301,7 +313,7 @@ func (f *fixture) ids(cl *side, res *side) idset {
 		clientID: cl.rep.ID.String(), clientKey: cl.rep.ClientKey,
 		docID: res.docID, docKey: res.docKey, onlyKey: res.onlyKey, onlyID: res.onlyID,
 		projectID: res.proj.ID.String(), projName: res.proj.Name,
-		revID: res.revID, schema: res.schema, pack: pack,
+		revID: res.revID, schema: res.schema, session: cl.session, pack: pack,
 	}
 }
 
@@ -339,6 +351,8 @@ func fill(m *dynamicpb.Message, ids idset) {
 			setStr(ids.projName)
 		case name == "revision_id":
 			setStr(ids.revID)
+		case name == "session_id":
+			setStr(ids.session)
 		case name == "schema_name":
 			setStr(ids.schema)
 		case name == "synchronous" || name == "force":
@@ -570,6 +584,9 @@ func (w *c13Worker) Run(idx int) runner.CaseResult {
 		res.AddStat("foreign_calls", 1)
 		if m := c13Memberships.Swap(0); m > 0 {
 			res.AddStat("fixtures_with_attacker_admin_membership_elsewhere", m)
+		}
+		if m := c13Sessions.Swap(0); m > 0 {
+			res.AddStat("fixture_clients_holding_a_channel_session", m)
 		}
 		res.AddSet("reject_codes", r.code)
 		after := f.digest(&f.B)
